@@ -32,7 +32,12 @@ Ops == << [polys |-> <<R(2, 2, 8, 6)>>, merged |-> Solo(R(2, 2, 8, 6))],
           [polys |-> <<Keyhole>>, merged |-> <<Part(R(0, 0, 12, 12), <<R(4, 4, 8, 8)>>)>>],
           [polys |-> <<Tri>>, merged |-> Solo(Tri)],
           [polys |-> << << <<8, 2>>, <<2, 2>>, <<2, 6>>, <<8, 6>> >> >>,        \* clockwise rectangle
-           merged |-> Solo(R(2, 2, 8, 6))] >>
+           merged |-> Solo(R(2, 2, 8, 6))],
+          \* groups that mix the two vertex orders (either polygon may hold the extreme vertex)
+          [polys |-> <<R(1, 1, 5, 5), << <<11, 1>>, <<7, 1>>, <<7, 5>>, <<11, 5>> >> >>,
+           merged |-> Each(<<R(1, 1, 5, 5), R(7, 1, 11, 5)>>)],
+          [polys |-> << << <<5, 1>>, <<1, 1>>, <<1, 5>>, <<5, 5>> >>, R(7, 3, 11, 9)>>,
+           merged |-> Each(<<R(1, 1, 5, 5), R(7, 3, 11, 9)>>)] >>
 Dists == IF Depth = "thorough" THEN {1, 2, 3, 5, -1, -2, -3} ELSE {1, 3, -1, -2}
 Joins == {"round", "miter", "bevel"}
 Scalings == IF Depth = "thorough" THEN {1, 4, 100} ELSE {1, 4}
